@@ -67,6 +67,10 @@ ASSUMPTIONS = [
     '(what __call__ uses), must report what add(batch) on a fresh accumulator reports; '
     'for the text metrics the value returned by add() is that batch result; skipped when '
     'the dataset holds only NaN (count 0 has no shape yet)',
+    'CalibrationHistogram (add and merge share one code path, no merge-free batch '
+    'evaluation): the one-batch result must conserve the number of values and the sums '
+    'of labels / predictions (exact, dyadic data inside the range); ThresholdedRetrieval: '
+    'get_metric() of the batch confusion matrix returned by add() is the merge-free value',
     'when both paths raise the same exception type (e.g. result() of a never-fed '
     'RRegression) they agree; this is counted as `both_raise`',
     'Keras wrapper excluded (Keras not installed); AggFnNested excluded '
@@ -80,7 +84,7 @@ EXHAUSTIVE = {'quick': False, 'thorough': False}
 CHUNK_TIMEOUT_S = {'quick': 240, 'thorough': 3000}
 
 N_CHUNKS = {'quick': 32, 'thorough': 64}
-CASES_PER_ADAPTER_MODE = {'quick': 250, 'thorough': 12000}
+CASES_PER_ADAPTER_MODE = {'quick': 250, 'thorough': 6000}
 
 
 def plan(tier, seed):
@@ -216,6 +220,12 @@ def check_case(ctx, case, reg):
       if d:
         _violate(ctx, ad, 'add_on_fresh_differs_from_batch_state', case,
                  dict(lit, path=ad.one_batch_path), diffs=d, rows=rows)
+
+  if ref_obs[0] == 'ok' and mode == 'obj':
+    d = ad.invariants(rows, ref_obs[1])
+    if d:
+      _violate(ctx, ad, 'one_batch_result_breaks_conservation', case, lit, diffs=d,
+               rows=rows)
 
   # ---- subject: shards x batches, folded with merge ---------------------------
   def build_subject(shards):
